@@ -227,6 +227,7 @@ def run(res):
         return
     bad = {}
     name2id = {bytes(n).decode(): i for i, n in enumerate(g["archs"]["x86"]["names"]) if i}
+    id2name = {i: n for n, i in name2id.items()}
     operandless = {name2id[f["name"]] for f in g["db"]["forms"] if f["name"] in name2id and all(o["implicit"] for o in f["operands"])}
     for k, m in zip(mon_idx, mon):
         if m == "good":
@@ -245,6 +246,9 @@ def run(res):
                 w = ops[k].split()
                 noops = all(x == "n" for x in w[5:])
                 key = "agree:%s:%s" % (cls, e0) + (":no-operands" if noops and int(w[2]) not in operandless else "")
+                if e0 == "InvalidInstruction" and not key.endswith(":no-operands"):
+                    # database forms: one key per instruction (exact); near-miss mutations: one key per mutated part
+                    key += ":" + (id2name.get(int(w[2]), "?") if inf[1] == "form" else "mut-" + group_of(inf[1]))
             else:
                 key = "agree:%s:%s" % (cls, group_of(inf[1]))
         bad.setdefault(key, []).append(k)
